@@ -283,6 +283,9 @@ def render(body, kind, pad=False):
         r.emit(1, "if rt.never:")
         for j in range(PAD_CONSTANTS):
             r.emit(2, "z = %d" % (1000 + j))
+        # a comprehension whose loop variable is captured by a nested function: where comprehensions are inlined (3.12)
+        # that name is a local AND a cell variable of this function, which shifts where the value stack starts
+        r.emit(2, "z = [(lambda: q) for q in ()]")
     # a local bound to None: a context whose manager object is (momentarily) unknown must not be named after it
     r.emit(1, "z = None")
     if kind == "agen" and not has(body, ("susp",)):
@@ -429,6 +432,9 @@ class AMS(AM):
     """like AM, but __aexit__ is a plain function handing back the coroutine of another method"""
 
     def __aexit__(s, *exc):
+        # the exit call is in progress from here on (not only once the coroutine it hands back is being awaited)
+        s.rt.exiting = s
+        s.rt.probe("aexit-call")
         return s._shutdown(*exc)
 
     async def _shutdown(s, *exc):
@@ -449,6 +455,8 @@ class AMI(AM):
     def __aexit__(s, *exc):
         s._phase = ("exit", exc)
         s._st = 0
+        s.rt.exiting = s
+        s.rt.probe("aexit-call")
         return s
 
     def __await__(s):
